@@ -2,6 +2,8 @@
 from __future__ import annotations
 
 import json
+import io
+import contextlib
 import shutil
 import warnings
 from pathlib import Path
@@ -90,6 +92,7 @@ def run(chk: Check):
     chk.assumptions = ["a restore returns the table stored with the checkpoint (which may be older than the live one): 'never reassigned' is about one life line of the calibrator"]
     chk.proof_stage(PROP_FILE)
     folder_reuse(chk, rng)
+    many_classes(chk, rng)
     n = 120 if chk.tier == "quick" else 2000
     for i in range(n):
         scn = ch.gen_scn(rng, sched="rr", restore=rng.random() < 0.5, set_ops=True, max_batches=rng.randint(2, 9))
@@ -134,6 +137,81 @@ def run(chk: Check):
         finally:
             if info.get("folder"):
                 shutil.rmtree(info["folder"], ignore_errors=True)
+
+
+# thirteen sampler classes of a user's own (picklable: module level), so that a calibration can come to know more than ten class names
+def _mk_user_classes():
+    from black_it.samplers.random_uniform import RandomUniformSampler
+    out = []
+    for k in range(13):
+        cls = type(f"UserSampler{k:02d}", (RandomUniformSampler,), {"__module__": __name__})
+        globals()[cls.__name__] = cls
+        out.append(cls)
+    return out
+
+
+def many_classes(chk: Check, rng):
+    """a calibration whose line-up is replaced again and again until it knows twelve sampler classes (ids up to 11, two digits), a checkpoint, a restore,
+    one more replacement that brings in a class never seen before, more batches, a checkpoint: no id is ever reassigned, every sample's id names the class
+    that produced it, and the plotting helper recovers the names from the folder.  Judged on the real objects (no model comparison)."""
+    import tempfile
+    from black_it.calibrator import Calibrator
+    from black_it.loss_functions.minkowski import MinkowskiLoss
+    from black_it.plot.plot_results import _get_samplers_names
+
+    classes = globals().get("_USER_CLASSES") or _mk_user_classes()
+    globals()["_USER_CLASSES"] = classes
+    for it in range(2 if chk.tier == "quick" else 12):
+        order = classes[:]; rng.shuffle(order)
+        folder = tempfile.mkdtemp(prefix="vpc18many")
+        produced = []          # class name of every recorded sample, in order
+        tables = []
+        case = {"case": {"kind": "many_classes", "order": [c.__name__ for c in order]}}
+        try:
+            with contextlib.redirect_stdout(io.StringIO()), warnings.catch_warnings():
+                warnings.simplefilter("ignore")
+                mk = lambda cs: [c(batch_size=rng.randint(1, 2), random_state=rng.randrange(1000)) for c in cs]
+                model = lambda theta, N, seed: np.full((N, 1), float(np.sum(theta)))      # noqa: E731, N803
+                cal = Calibrator(loss_function=MinkowskiLoss(), real_data=np.zeros((5, 1)), model=model, parameters_bounds=[[0.0, 0.0], [1.0, 1.0]],
+                                 parameters_precision=[0.001, 0.001], ensemble_size=1, samplers=mk(order[0:4]), saving_folder=folder, verbose=False, random_state=it, n_jobs=1)
+
+                def run_batches(cal_, nb):
+                    for _ in range(nb):
+                        n0 = len(cal_.params_samp)
+                        smp = cal_.scheduler.samplers[cal_.current_batch_index % len(cal_.scheduler.samplers)] if hasattr(cal_.scheduler, "samplers") else None
+                        cal_.calibrate(1)
+                        produced.extend([type(smp).__name__] * (len(cal_.params_samp) - n0))
+                        tables.append(dict(cal_.samplers_id_table))
+                run_batches(cal, 4)
+                cal.set_samplers(mk(order[4:8])); run_batches(cal, 4)
+                cal.set_samplers(mk(order[8:12])); run_batches(cal, 4)
+                cal = Calibrator.restore_from_checkpoint(folder, model=model)
+                tables.append(dict(cal.samplers_id_table))
+                cal.set_samplers(mk([order[12], order[2]])); run_batches(cal, 2)
+                cal.create_checkpoint(folder)
+                final = dict(cal.samplers_id_table)
+                ids = [int(x) for x in np.asarray(cal.method_samp)]
+                names_from_folder = _get_samplers_names(folder, sorted(set(ids)))
+        except Exception as e:  # noqa: BLE001
+            chk.fail(f"a calibration that comes to know thirteen sampler classes raised {type(e).__name__}: {str(e)[:120]}", case)
+            shutil.rmtree(folder, ignore_errors=True)
+            continue
+        shutil.rmtree(folder, ignore_errors=True)
+        chk.case(["many-classes", it, [c.__name__ for c in order]], True, {"classes": len(final), "samples": len(ids)}); chk.count("calibration_knowing_13_sampler_classes")
+        for t_prev, t_next in zip(tables, tables[1:] + [final]):
+            moved = {k: (v, t_next.get(k)) for k, v in t_prev.items() if t_next.get(k) != v}
+            if moved:
+                chk.fail(f"id table: ids were reassigned or lost between two states of one calibration (13 classes, restore in between): {moved}", case); break
+        if len(set(final.values())) != len(final):
+            chk.fail(f"id table: two sampler classes share one id: {final}", case)
+        inv = {v: k for k, v in final.items()}
+        wrong = [(i, inv.get(ids[i]), produced[i]) for i in range(min(len(ids), len(produced))) if inv.get(ids[i]) != produced[i]]
+        if wrong or len(ids) != len(produced):
+            chk.fail(f"id table: {len(wrong)} samples carry an id that does not name the class that produced them (first: row {wrong[0][0] if wrong else '?'} labelled "
+                     f"{wrong[0][1] if wrong else '?'}, produced by {wrong[0][2] if wrong else '?'}); table {final}", case)
+        want_names = [inv.get(i) for i in sorted(set(ids))]
+        if list(names_from_folder) != want_names:
+            chk.fail(f"plotting maps ids {sorted(set(ids))} to {list(names_from_folder)} from the checkpoint folder, the calibrator's table says {want_names}", case)
 
 
 def folder_reuse(chk: Check, rng):
